@@ -1345,6 +1345,23 @@ package badger
 //@   assert[non-empty-only] before call Send : ret(LenNoPadding#1) != 0 && arg0 == batch
 //@   assert[send-error-returned] before return#2 : result == ret(Send#1) && result != nil
 
+// One key range of a Stream run: all versions of the prefix since SinceTs are read through the
+// producer's one transaction, starting at the range's left end; a key equal to the previous one
+// is skipped (each key once); the range's right end is exclusive; the key handed to KeyToList
+// is the current item's; every resulting KV is tagged with the range's stream id and buffered.
+//@ func (*Stream).produceKVs.iterate
+//@   props C25
+//@   light
+//@   assert[iterator-of-the-snapshot] before call NewIterator : arg0 == txn && arg1.AllVersions && arg1.Prefix == st.Prefix && arg1.SinceTs == st.SinceTs
+//@   assert[starts-at-left-end] before call Seek : arg1 == kr.left
+//@   assert[same-key-skipped] before call Next : ret(Equal#1)
+//@   assert[duplicate-test-against-previous] before call Equal : arg0 == ret(Key#1) && arg1 == prevKey
+//@   assert[previous-key-remembered] before call append#1 : arg1 == ret(Key#2) && !ret(Equal#1)
+//@   assert[right-end-exclusive] before call Reset : len(kr.right) == 0 || ret(Compare#1) < 0
+//@   assert[range-end-test] before call Compare : arg0 == ret(Key#3) && arg1 == kr.right
+//@   assert[list-of-current-key] before call KeyToList : arg0 == ret(KeyCopy#2) && arg1 == itr
+//@   assert[tagged-and-buffered] before call KVToBuffer#1 : arg0 == kv && kv.StreamId == streamId && arg1 == outList
+
 // ---- streams (C25): one snapshot per run ----
 
 // Every producer goroutine of one Stream run must read the same snapshot. With a caller-given
